@@ -139,3 +139,31 @@ Proof.
            (names_sepb_ok g nt H1) (single_attachb_ok g c H2) (links_typedb_ok g c H3)).
 Qed.
 Print Assumptions C02_hw_delivered_model.
+
+(* Part 7: every hypothesis in decidable form (booleans computed from the description), evaluated on the
+   examples below: nothing is assumed that a run of the extracted checker cannot establish for a concrete
+   description. *)
+Theorem C02_hw_delivered_decidable :
+  forall (d : desc) (g : graph) (c : compiled) (ri : rinfo) (n : netlist) (t : cni) (id : Z) (nt : net),
+    nt = Req \/ nt = Rsp ->
+    build d = Ok g -> compile d g = Ok c -> gen_routing_info sp_reference c = Ok ri -> emit c ri = Ok n ->
+    d_algo d = ID -> In t (c_nis c) -> id_num (cn_id t) = Ok id ->
+    transitb sp_reference c t = true ->
+    names_sepb g nt = true -> single_attachb g c = true -> links_typedb g c = true -> degrees_fitb c = true ->
+    forall s0 p, In s0 (c_nis c) -> cn_name s0 <> cn_name t -> is_rtb c (snd (attach nt s0)) = true ->
+      sp_reference g (snd (attach nt s0)) (cn_name t) = Some p ->
+      let tr := send n nt (emit_ni d (ri_offset ri) s0) (HId id) in
+      t_out tr = Delivered (cn_name t) (HId id) /\ S (length (t_rts tr)) = length p.
+Proof. exact hw_send_decidable. Qed.
+Print Assumptions C02_hw_delivered_decidable.
+
+Example C02_hw_decidable_nonvacuous :
+  forallb (fun d =>
+    match (do g <- build d; do c <- compile d g; Ok (g, c)) with
+    | Ok (g, c) =>
+        forallb (transitb sp_reference c) (c_nis c) && names_sepb g Req && names_sepb g Rsp &&
+        single_attachb g c && links_typedb g c && degrees_fitb c &&
+        forallb (fun s0 => is_rtb c (snd (attach Req s0)) && is_rtb c (snd (attach Rsp s0))) (c_nis c)
+    | Err _ => false
+    end) [ex_star ID; ex_tree ID; ex_mesh ID] = true.
+Proof. vm_compute. reflexivity. Qed.
